@@ -61,6 +61,10 @@ def case_single(kind, fam, uniform=False):
                         fem.IntegralForm([rnd(rng, *bc)], v=field, dV=dVs[parallel], grad_v=[False]).assemble(parallel=parallel)
                         fem.IntegralForm([rnd(rng, 1, *bc)], v=field, dV=dVs[parallel], grad_v=[False]).assemble(parallel=parallel)
                         fem.IntegralForm([rnd(rng, 1, dm, *bc)], v=field, dV=dVs[parallel], grad_v=[True]).assemble(parallel=parallel)
+                        # the flux of a scalar problem given as a plain vector (dm, q, c), without the explicit component axis of length one
+                        # (round 11: a trimming rule for 3-component integrands cut this one to its first component on 3D regions)
+                        fem.IntegralForm([rnd(rng, dm, *bc)], v=field, dV=dVs[parallel], grad_v=[True]).assemble(parallel=parallel)
+                        run.units["scalar:flux-as-plain-vector:dim=%d" % dm] += 1
                         fem.IntegralForm([rnd(rng, *bc)], v=field, dV=dVs[parallel], u=field, grad_v=[False], grad_u=[False]).assemble(parallel=parallel)
                         fem.IntegralForm([rnd(rng, 1, dm, 1, dm, *bc)], v=field, dV=dVs[parallel], u=field, grad_v=[True], grad_u=[True]).assemble(parallel=parallel)
                         continue
@@ -386,7 +390,7 @@ def cases(tier, seed):
 
 
 SPEC = {
-    "required_units": ["rectangular:own-region", "rectangular:disconnected", "rectangular:scalar-trial", "rectangular:shape", "kind:cartesian", "kind:scalar", "kind:planestrain", "kind:axisymmetric", "kind:cartesian uniform",
+    "required_units": ["scalar:flux-as-plain-vector:dim=2", "scalar:flux-as-plain-vector:dim=3", "rectangular:own-region", "rectangular:disconnected", "rectangular:scalar-trial", "rectangular:shape", "kind:cartesian", "kind:scalar", "kind:planestrain", "kind:axisymmetric", "kind:cartesian uniform",
                        "kind:planestrain uniform", "mixed:cartesian:n=3", "mixed:cartesian:n=2", "mixed:planestrain:n=3",
                        "mixed:planestrain:n=2", "mixed:axisymmetric:n=3", "mixed:axisymmetric:n=2", "assemble(values=integrate())", "block-mode=1", "block-mode=2", "block-mode=3", "none-block", "parallel-einsum", "dual-points-per-cell=1",
                        "dual-points-per-cell=4", "dual-points-per-cell=3", "distinct-thread-completion-orders>=2",
